@@ -3,6 +3,7 @@ package rollout
 // C02 — steps are gated (DESIGN.md §6 C02); C03 ordering obligations ride on the same harness.
 
 import (
+	"fmt"
 	"strconv"
 	"strings"
 	"time"
@@ -12,8 +13,10 @@ import (
 	"github.com/openkruise/rollouts/pkg/util"
 	"github.com/openkruise/rollouts/pkg/verifrt"
 	"github.com/openkruise/rollouts/pkg/verifrt/symclient"
+	metav1 "k8s.io/apimachinery/pkg/apis/meta/v1"
 	"k8s.io/apimachinery/pkg/util/intstr"
 	"k8s.io/client-go/tools/record"
+	"sigs.k8s.io/controller-runtime/pkg/client"
 )
 
 // c02CheckStep asserts the one-step transition relation of runCanary (canary and blue-green share it).
@@ -383,3 +386,62 @@ func VerifC02_InitializingRecordsTheRevisionBeingReleased() {
 // periods too: C07.step.cleanupWaitHasAWakeUpInTheFuture of the same relation, from the Init and Upgrade sub-states
 func VerifC07_CanaryCleanupWaitHasAWakeUp()    { c02Canary(0) }
 func VerifC07_BlueGreenCleanupWaitHasAWakeUp() { c02BlueGreen(0) }
+
+// VerifC02_PlanChangeContinuesFromTheStepThatCoversWhatIsOut: when the plan is edited in the middle of a release the
+// rollout continues from the step of the *new* plan that covers the pods already released (percentages round up, on
+// both sides): the current step if it still covers them — so a rollout waiting for approval there keeps waiting —
+// otherwise the first step in plan order that does.  It never lands on a later step: every step in between would be
+// skipped without its pods having been reported ready and without its approval.
+func VerifC02_PlanChangeContinuesFromTheStepThatCoversWhatIsOut() {
+	vSimple = true
+	n := verifrt.Concrete(verifrt.IntRange("nSteps", 1, verifrt.Bound("nSteps.max", 2, 3)))
+	cur := verifrt.Concrete(verifrt.IntRange("st.currentStepIndex", 1, n))
+	blueGreen := verifrt.Bool("blueGreen")
+	var r *v1beta1.Rollout
+	if blueGreen {
+		r = vBlueGreenRollout(n, cur)
+	} else {
+		r = vCanaryRollout(n, cur)
+	}
+	R := verifrt.Concrete(verifrt.IntRange("wl.replicas.small", 1, verifrt.Bound("R", 6, 12)))
+	w := vWorkload()
+	w.Replicas = int32(R)
+	// what is out: the batch the BatchRelease is at, under the plan it was created with
+	outPercent := verifrt.IntRange("released.percent", 0, 100)
+	br := &v1beta1.BatchRelease{ObjectMeta: metav1.ObjectMeta{Namespace: r.Namespace, Name: r.Name}}
+	br.Spec.ReleasePlan.Batches = []v1beta1.ReleaseBatch{{CanaryReplicas: intstr.FromString(fmt.Sprintf("%d%%", outPercent))}}
+	zero := int32(0)
+	br.Spec.ReleasePlan.BatchPartition = &zero
+	cli := &symclient.Client{Objects: []client.Object{br}}
+	rec := c10Reconciler(cli)
+	c := &RolloutContext{Rollout: r, NewStatus: r.Status.DeepCopy(), Workload: w}
+	got, err := rec.recalculateCanaryStep(c)
+	verifrt.Assert(err == nil, "C02.planChange.noError")
+	if err != nil {
+		return
+	}
+	ceil := func(p int) int { return (p*R + 99) / 100 }
+	released := ceil(outPercent)
+	steps := r.Spec.Strategy.GetSteps()
+	covers := func(i int) bool {
+		p, _ := strconv.Atoi(strings.TrimSuffix(steps[i].Replicas.StrVal, "%"))
+		return released <= ceil(p)
+	}
+	verifrt.Assert(got >= 1 && int(got) <= n, "C02.planChange.landsOnAStepOfThePlan")
+	if covers(cur - 1) {
+		verifrt.Cover("stays")
+		verifrt.Assert(int(got) == cur, "C02.planChange.staysOnTheCurrentStepWhileItCoversWhatIsOut")
+		return
+	}
+	for i := 0; i < n; i++ {
+		if i == cur-1 {
+			continue
+		}
+		if covers(i) {
+			verifrt.Cover("moves")
+			verifrt.Assert(int(got) == i+1, "C02.planChange.firstStepThatCoversWhatIsOut")
+			return
+		}
+	}
+	verifrt.Cover("nothing-covers")
+}
